@@ -64,7 +64,10 @@ The tree after "repopulate" command may contain polytomies.
 			return
 		}
 
-		identicalgroups, err = readIdenticalGroupFile(groupfile)
+		if identicalgroups, err = readIdenticalGroupFile(groupfile); err != nil {
+			io.LogError(err)
+			return
+		}
 
 		if f, err = openWriteFile(outtreefile); err != nil {
 			io.LogError(err)
